@@ -355,7 +355,7 @@ theorem parseCoreC_eq (W : Nat) (r : Nat) (hr : 2 ≤ r) (hrW : r < 2 ^ W) (src 
 theorem digitWriterLen_pos (W : Nat) (hW : 8 ≤ W) : 1 ≤ digitWriterLen W := by
   unfold digitWriterLen ceilDiv
   have h8 : 1 ≤ W / 8 := (Nat.le_div_iff_mul_le (by omega)).mpr (by omega)
-  simp only [show (32 : Nat) ≠ 0 from by omega, if_false]
+  simp only [show Dashu.Gen.digit_writer_BUFFER_LEN_MIN ≠ 0 from by decide, if_false]
   exact Nat.mul_pos (Nat.succ_pos _) h8
 
 theorem digitWriterRun_go (W : Nat) (hW : 8 ≤ W) (c : DigitCase) (pieces : List (List Nat)) (s : DW)
